@@ -673,13 +673,19 @@ class C18:
                 e['not_exercised_because'] = r['why']
             if viol:
                 out.violations.append({'property': self.ID, 'what': viol, 'fault_job': j, 'result': r})
-        # candidate finding D10 (reported, never gated; silent once it is a recorded known finding)
+        # former finding D10 (mode names with quotes/newlines in the graph title)
         probe = []
         if not replay:
             probe = self.d10_probe(rdir)
-            if not known and any(e.get('check_verdict') for e in probe):
-                out.notes.append('D10 probe: a mode name with a double quote or newline reaches the graph title unescaped '
-                                 '(see coverage.d10_probe in the evidence); not gated')
+            # D10 was repaired in /repo (fix: mode names are escaped in the title); it is a gate now, so the
+            # defect is reported again if it ever returns
+            for e in probe:
+                if e.get('check_verdict') or (e.get('dot_grammar') not in (None, True, 'ok') and e.get('dot_grammar') is not True):
+                    if e.get('check_verdict'):
+                        out.violations.append({'property': self.ID,
+                                               'what': 'mode name that is not an identifier yields an ill-formed DOT file: %s' % e.get('check_verdict'),
+                                               'case': {'prefix': 'P', 'modes': [{'name': e['mode_name'], 'patterns': [{'p': 'a', 't': 1}], 'transitions': []}]},
+                                               'probe': e})
         # coverage
         seen, nt = set(), 0
         nla_hist, modes_hist, pats_hist = [], [], []
